@@ -548,8 +548,12 @@ double Find_Root(std::function<double(double)> func, double xLeft, double xRight
 			double x3 = (x1 + x2) / 2.0;
 
 			double f3 = func(x3);
+			if(f3 == 0.0)
+				return x3;
 			// New point
 			double x4 = x3 + (x3 - x1) * Sign(f1 - f2) * f3 / sqrt(f3 * f3 - f1 * f2);
+			// Rounding (or under-/overflow of the products) must not carry the new point out of the bracket
+			x4 = std::min(std::max(x4, std::min(x1, x2)), std::max(x1, x2));
 			// Check if we found the root
 			if(fabs(x4 - result) < xAccuracy)
 				return x4;
